@@ -92,6 +92,27 @@ class RealShape(Shape):
         return "real"
 
 
+class ArrShape(Shape):
+    def __init__(self, sort):
+        self.sorts = (sort,)
+
+    def unpack(self, v):
+        from .values import SArr
+        if isinstance(v, SArr) and v.t.sort() == self.sorts[0]:
+            return [v.t]
+        raise Unsupported("array shape got %r" % (v,))
+
+    def pack(self, ts):
+        from .values import SArr
+        return SArr(ts[0])
+
+    def __eq__(self, o):
+        return type(o) is ArrShape and self.sorts == o.sorts
+
+    def __repr__(self):
+        return "array"
+
+
 class ConstShape(Shape):
     sorts = ()
 
@@ -366,6 +387,9 @@ class ListShape(Shape):
 
 
 def shape_of(v, st=None):
+    from .values import SArr
+    if isinstance(v, SArr):
+        return ArrShape(v.t.sort())
     if isinstance(v, SInt):
         return IntShape()
     if isinstance(v, SBool):
